@@ -926,7 +926,7 @@ def mon_lines(run):
     return out
 
 
-MONITORS = ["overlap", "count", "present", "owner", "states", "cleanup", "result", "uid"]
+MONITORS = ["overlap", "count", "attempt", "present", "owner", "states", "cleanup", "result", "uid"]
 
 
 def run_case(spec, driver, monitors=MONITORS, max_virtual=200000, run_cls=None):
